@@ -25,6 +25,11 @@ CHECKS = {
          "Scoped-variable scenarios and scoped-heavy generated programs are executed (strict, and lazy inside the order-insensitive fragment) on trees with deep nesting, same-range parent/child chains and many nodes of one kind, and compared with the reference interpreter keyed by pre-order node identity: same Ok/Err, same attribute values copied out of the variables, nearest-ancestor inheritance only for declared names, duplicate definitions rejected.",
          "Trusted: the reference interpreter and the tree index (one TreeCursor walk). 32-bit id collisions of tree-sitter nodes are out of reach (DESIGN §10).",
          "DESIGN.md §5 C04"),
+ "C08": ("exploration",
+         "metamorphic testing: every permutation of a file's stanzas (all n! for small n, sampled beyond) executed lazily and compared with the file order",
+         "Accepted files with cross-stanza dependencies (scoped-variable scenarios, generated programs) are executed lazily in file order and under all stanza permutations (n <= 4 quick, n <= 5 thorough; reversal + samples beyond); Ok/Err must be the same and graphs isomorphic. A permutation is a different processing schedule of the same matches, so exhaustive permutation of small files is the natural exploration.",
+         "Trusted: graph isomorphism (budgeted). Known finding D16 is pinned and excluded by construction.",
+         "DESIGN.md §5 C08"),
  "C09": ("exploration",
          "model-based testing over histories: pre-populated graph + 1-3 execute_into calls, map/set graph model advanced by the reference interpreter, isomorphism with existing nodes fixed",
          "Histories on one graph (API pre-population with attributed edges, then up to three execute_into calls in either mode with collision-heavy generated programs and existing nodes handed back as globals) are compared after every call with a map/set model: existing nodes, edges and attribute values intact, new nodes numbered after them, one edge per pair, ascending edge iteration, conflicts fail. Exploration over histories is the right level for a stateful accumulation contract.",
@@ -55,6 +60,16 @@ CHECKS = {
          "Sources with 0-6 injected syntax faults are parsed; first/all/into_first/into_all must report exactly the outermost ERROR and MISSING nodes in document order (the owning variants after being moved to another thread) and both Display forms must return and cite line and column. Exploration is the right level: trees are an unbounded input space and the oracle is a ten-line recursive walk.",
          "Trusted: tree-sitter's Node API (is_error, is_missing, child). Thread moves exercise Send only in the schedules the OS produces.",
          "DESIGN.md §5 C18"),
+ "C20": ("exploration",
+         "reference-model fault injection: one run-time fault at a generated statement position and depth, error context compared with the reference interpreter's failure site",
+         "Valid generated programs with exactly one injected run-time fault are executed in both modes on trees with many matches; the returned error must be a statement context that names the stanza, the matched node and the failing statement (strict: exactly the reference interpreter's first failure site; lazy: consistent with the cited stanza, and for two-statement conflicts exactly the two conflicting statements), and display_pretty must show the cited DSL and source lines.",
+         "Trusted: the reference interpreter's failure site, printer locations. The Context type is private to the library, so contexts are read from the error's Debug rendering.",
+         "DESIGN.md §5 C20"),
+ "C15": ("exploration",
+         "differential testing between configurations (debug attributes off / on, both modes) plus expected attribute values from the reference interpreter's record of node and edge origins",
+         "Generated programs (half collision-heavy) are executed in both modes with and without the debug-attribute configuration: same Ok/Err, stripping the three attributes gives exactly the plain graph, nodes from `node` statements carry variable text, 1-based line/column of the variable and the stanza's matched node, edges carry the location of a creating `edge` statement.",
+         "Trusted: the printer's locations (cross-checked by C07), the reference interpreter's origin trace. Under a non-identity renumbering an edge location belonging to another executed edge statement is inconclusive.",
+         "DESIGN.md §5 C15"),
  "C16": ("exploration",
          "exhaustive enumeration of the declaration x supply x mode product and of the static rules, plus reference-model testing of generated programs",
          "Every declaration (4 quantifiers x default or not) x 13 supply patterns x 2 modes, for one global and for all pairs of two globals (21,840 runs), is executed and checked against the contract (missing-global / list errors, value seen at every block depth and stanza, caller's inner and outer Variables unchanged); every static rule x every declaration is checked at load (or run time for shorthand variables); generated programs that read globals at every depth are compared with the reference interpreter in both modes. The finite parts are exhaustive on every run; the generated part is exploration.",
